@@ -1092,3 +1092,292 @@ Section Countdown.
     cbn. unfold coerce. cbn. rewrite String.eqb_refl. f_equal. f_equal. lia.
   Qed.
 End Countdown.
+
+(* ================================================================== the judge *)
+(* what an `ok` verdict transports to the implementation: its observation on this case is exactly
+   what the SPECIFICATION evaluator (every quirk off: first matching arm with a true guard, nothing
+   else evaluated, ...) yields - the value, or an error where the specification has one *)
+Definition C16_spec (c : case) (o : fobs) : Prop :=
+  match run spec_q (big_depth c) c with
+  | ROk v => o = FVal v
+  | RErr => o = FErr
+  | _ => False
+  end.
+
+Lemma obs_is_ok v o : obs_is (ROk v) o = true -> o = FVal v.
+Proof. destruct o; cbn; try discriminate. intros H. apply value_eqb_eq in H. congruence. Qed.
+Lemma obs_is_err o : obs_is RErr o = true -> o = FErr.
+Proof. destruct o; cbn; try discriminate. reflexivity. Qed.
+
+Ltac split_all := repeat match goal with
+  | |- context [if ?b then _ else _] => destruct b
+  | |- context [match ?x with _ => _ end] => destruct x
+  end.
+
+Lemma verdict_ok s i deep kc o tag : verdict s i deep kc o = v_ok tag ->
+  (s = RErr \/ exists v, s = ROk v) /\ obs_is s o = true.
+Proof.
+  unfold verdict. destruct s as [v| | | |w| |]; try discriminate.
+  - destruct (obs_is (ROk v) o) eqn:Eo; [intros _; split; [right; eauto|reflexivity]|].
+    intros H. exfalso. revert H. destruct o; split_all; discriminate.
+  - destruct (obs_is RErr o) eqn:Eo; [intros _; split; [left; reflexivity|reflexivity]|].
+    intros H. exfalso. revert H. destruct o; split_all; discriminate.
+Qed.
+
+Theorem judge_case_sound c o tag : judge_case c o = v_ok tag -> C16_spec c o.
+Proof.
+  unfold judge_case, C16_spec. intros H. apply verdict_ok in H as [[Hs|[v Hs]] Ho]; rewrite Hs in *.
+  - apply obs_is_err. exact Ho.
+  - apply obs_is_ok. exact Ho.
+Qed.
+
+(* a kf verdict is only given when the observation is exactly what the code model predicts
+   (or the process died on a recursion deeper than depth_safe) *)
+Lemma verdict_kf s i deep kc o id : verdict s i deep kc o = v_kf id ->
+  (id = "deep-recursion-abort" /\ o = FAbort /\ deep tt = true) \/
+  (obs_is (i tt) o = true /\ res_eqb (i tt) s = false /\ kc tt = Some id).
+Proof.
+  unfold verdict.
+  destruct s as [v| | | |w| |]; try discriminate.
+  - destruct (obs_is (ROk v) o); [discriminate|].
+    destruct o; try (destruct (deep tt) eqn:Ed; [|discriminate]; intros H; inversion H; subst; left; auto);
+      (destruct (res_eqb (i tt) (ROk v)) eqn:Er; [discriminate|]); (destruct (obs_is (i tt) _) eqn:Eo; [|discriminate]);
+      (destruct (kc tt) eqn:Ek; [|destruct (i tt); discriminate]);
+      destruct (i tt); try discriminate; intros H; inversion H; subst; right; auto.
+  - destruct (obs_is RErr o); [discriminate|].
+    destruct o; try (destruct (deep tt) eqn:Ed; [|discriminate]; intros H; inversion H; subst; left; auto);
+      (destruct (res_eqb (i tt) RErr) eqn:Er; [discriminate|]); (destruct (obs_is (i tt) _) eqn:Eo; [|discriminate]);
+      (destruct (kc tt) eqn:Ek; [|destruct (i tt); discriminate]);
+      destruct (i tt); try discriminate; intros H; inversion H; subst; right; auto.
+Qed.
+
+Theorem judge_case_kf c o id : judge_case c o = v_kf id ->
+  (id = "deep-recursion-abort" /\ o = FAbort /\ is_deep c = true) \/
+  (obs_is (run impl_q (big_depth c) c) o = true /\
+   res_eqb (run impl_q (big_depth c) c) (run spec_q (big_depth c) c) = false /\
+   kf_class c (run spec_q (big_depth c) c) = Some id).
+Proof. unfold judge_case. intros H. apply verdict_kf in H. exact H. Qed.
+
+(* ================================================================== C16 holds: programs without match expressions
+   The five switches only matter (a) inside match expressions, (b) for a bare wildcard arm
+   of a function with other than one parameter, (c) for a one-parameter scalar function whose
+   output kind differs from its input kind.  For every program free of (a)-(c) - whatever
+   patterns, recursion, tail calls, broadcasting it uses - the evaluator does not depend on the
+   switches at all: the code model IS the specification. *)
+Fixpoint nm (x : expr) : bool :=
+  match x with
+  | EVal _ => true
+  | EVar _ => true
+  | EBin _ a b => nm a && nm b
+  | ETuple es => forallb nm es
+  | ECall _ args => forallb nm args
+  | EMatch _ _ => false
+  end.
+
+Definition arm_free (a : arm) : bool :=
+  nm (arm_body a) && match arm_guard a with None => true | Some g => nm g end.
+
+Definition fd_free (fd : fdef) : bool :=
+  forallb arm_free (farms fd) &&
+  match fparams fd with
+  | [(_, k)] => negb (is_scalar_kind k) || pkind_eqb k (fout fd)
+  | _ => negb (has_wild (farms fd))
+  end.
+
+Definition prog_free (P : prog) : bool := forallb fd_free (pdefs P).
+
+Lemma map_res_ext {A B} (f g : A -> res B) l : (forall x, In x l -> f x = g x) -> map_res f l = map_res g l.
+Proof.
+  induction l as [|a r IH]; intros H; [reflexivity|]. cbn [map_res].
+  rewrite (H a (or_introl eq_refl)), IH; [reflexivity|]. intros x Hx. apply H. right. exact Hx.
+Qed.
+
+Lemma select_ext gd1 gd2 mt1 mt2 : forall arms k,
+  (forall a, In a arms -> forall e, gd1 e (arm_guard a) = gd2 e (arm_guard a)) ->
+  (forall a, In a arms -> mt1 (arm_pat a) = mt2 (arm_pat a)) ->
+  select_at gd1 mt1 k arms = select_at gd2 mt2 k arms.
+Proof.
+  induction arms as [|[[p g] b] rest IH]; intros k Hg Hm; [reflexivity|].
+  unfold select_at in *. cbn [select_gen].
+  pose proof (Hm (p, g, b) (or_introl eq_refl)) as Hm1. cbn [arm_pat fst] in Hm1. rewrite <- Hm1.
+  destruct (mt1 p) as [m e].
+  pose proof (Hg (p, g, b) (or_introl eq_refl) e) as Hg1. cbn [arm_guard fst snd] in Hg1. rewrite <- Hg1.
+  rewrite IH; [reflexivity| |]; intros a Ha; [apply Hg | apply Hm]; right; exact Ha.
+Qed.
+
+Lemma select_in gd mt arms k i e b : select_at gd mt k arms = SelArm i e b -> exists a, In a arms /\ arm_body a = b.
+Proof.
+  intros H. apply select_first_at in H as (j & a & _ & Hn & Hb & _). exists a. split; [eapply nth_error_In; eassumption|exact Hb].
+Qed.
+
+Lemma conforms_all_length P ps vs : conforms_all P ps vs = true -> List.length ps = List.length vs.
+Proof.
+  revert vs. induction ps as [|[x k] ps IH]; intros [|v vs] H; try discriminate; [reflexivity|].
+  cbn in H. apply andb_prop in H as [_ H]. cbn. f_equal. apply IH. exact H.
+Qed.
+
+Lemma nm_forallb_In l x : forallb nm l = true -> In x l -> nm x = true.
+Proof. intros H Hx. rewrite forallb_forall in H. apply H. exact Hx. Qed.
+
+Section QuirkFree.
+  Context (q1 q2 : quirks) (P : prog).
+  Hypothesis HP : prog_free P = true.
+
+  Definition agree (ev1 ev2 : evaluator) : Prop := forall d s e x, nm x = true -> ev1 d s e x = ev2 d s e x.
+
+  Lemma guard_res_ext ev1 ev2 d s e g : agree ev1 ev2 -> match g with None => true | Some ge => nm ge end = true ->
+    guard_res (ev1 d s) e g = guard_res (ev2 d s) e g.
+  Proof. intros Ha Hg. destruct g as [ge|]; [|reflexivity]. cbn. rewrite (Ha d s e ge Hg). reflexivity. Qed.
+
+  Lemma tail_loop_ext ev1 ev2 fd : agree ev1 ev2 -> fd_free fd = true ->
+    forall n d args, tail_loop q1 P ev1 n d fd args = tail_loop q2 P ev2 n d fd args.
+  Proof.
+    intros Ha Hf. unfold fd_free in Hf. apply andb_prop in Hf as [Harms Hshape].
+    assert (Hfree : forall a, In a (farms fd) -> arm_free a = true) by (apply forallb_forall; exact Harms).
+    induction n as [|n IH]; intros d args; [reflexivity|].
+    rewrite !tail_loop_S. destruct (conforms_all P (fparams fd) args) eqn:Ec; [|reflexivity]. cbn [negb].
+    destruct (fn_exhaustive P fd); [|reflexivity]. cbn [negb]. cbv zeta.
+    set (syms := combine (map fst (fparams fd)) args).
+    assert (Hsel : select_at (guard_res (ev1 d syms)) (pm_args (q_multi_wild q1) args) 0 (farms fd) =
+                   select_at (guard_res (ev2 d syms)) (pm_args (q_multi_wild q2) args) 0 (farms fd)).
+    { apply select_ext.
+      - intros a Hin e. apply guard_res_ext; [exact Ha|]. specialize (Hfree a Hin). unfold arm_free in Hfree.
+        apply andb_prop in Hfree as [_ Hg]. exact Hg.
+      - intros a Hin. unfold pm_args. destruct args as [|v1 [|v2 vs]]; try reflexivity;
+          (destruct (arm_pat a) eqn:Ep; try reflexivity; exfalso;
+           apply conforms_all_length in Ec; destruct (fparams fd) as [|[x1 k1] [|pp ps]]; try discriminate;
+           (apply negb_true_iff in Hshape; unfold has_wild in Hshape;
+            assert (Hex : existsb (fun a0 => is_wild (arm_pat a0)) (farms fd) = true)
+              by (apply existsb_exists; exists a; split; [exact Hin | rewrite Ep; reflexivity]);
+            congruence)). }
+    rewrite Hsel.
+    destruct (select_at (guard_res (ev2 d syms)) (pm_args (q_multi_wild q2) args) 0 (farms fd)) as [r| |i e body] eqn:Es; try reflexivity.
+    apply select_in in Es as (a & Hin & Hb). specialize (Hfree a Hin). unfold arm_free in Hfree.
+    apply andb_prop in Hfree as [Hbody _]. rewrite Hb in Hbody.
+    destruct (self_tail_call fd body) as [targs|] eqn:Et.
+    - assert (Ht : forallb nm targs = true).
+      { unfold self_tail_call in Et. destruct body; try discriminate. destruct (_ && _); [|discriminate].
+        inversion Et; subst. exact Hbody. }
+      rewrite (map_res_ext (ev1 d syms e) (ev2 d syms e)) by (intros x Hx; apply Ha; eapply nm_forallb_In; eassumption).
+      destruct (map_res (ev2 d syms e) targs); try reflexivity. apply IH.
+    - rewrite (Ha d syms e body Hbody). reflexivity.
+  Qed.
+
+  Lemma call_fn_ext ev1 ev2 fd n d args : agree ev1 ev2 -> fd_free fd = true ->
+    call_fn q1 P ev1 n d fd args = call_fn q2 P ev2 n d fd args.
+  Proof.
+    intros Ha Hf. rewrite !call_fn_unfold. destruct (negb _); [reflexivity|].
+    destruct (broadcast_target P fd args) as [[[r c] els]|] eqn:Eb.
+    - assert (Hk : pkind_eqb (param_kind1 fd) (fout fd) = true).
+      { unfold broadcast_target in Eb. unfold fd_free in Hf. apply andb_prop in Hf as [_ Hs]. unfold param_kind1.
+        destruct (fparams fd) as [|[x k] [|pp ps]]; try discriminate.
+        destruct args as [|[| | | |] [|? ?]]; try discriminate.
+        destruct (is_scalar_kind k) eqn:Ek; [|discriminate]. cbn in Hs. exact Hs. }
+      rewrite Hk. cbn [negb andb]. rewrite !andb_false_r.
+      rewrite (map_res_ext (fun x => tail_loop q1 P ev1 n d fd [x]) (fun x => tail_loop q2 P ev2 n d fd [x]));
+        [reflexivity|]. intros x _. apply tail_loop_ext; assumption.
+    - apply tail_loop_ext; assumption.
+  Qed.
+
+  Lemma find_fn_free ds fn fd : forallb fd_free ds = true -> find_fn ds fn = Some fd -> fd_free fd = true.
+  Proof.
+    induction ds as [|d r IH]; intros H Hf; [discriminate|]. cbn in H, Hf. apply andb_prop in H as [H1 H2].
+    destruct (String.eqb (fname d) fn); [inversion Hf; subst; exact H1 | apply IH; assumption].
+  Qed.
+
+  Theorem eval_quirk_free : forall fuel d s e x, nm x = true -> eval q1 P fuel d s e x = eval q2 P fuel d s e x.
+  Proof.
+    induction fuel as [|f IH]; intros d s e x Hx; [reflexivity|].
+    assert (Ha : agree (eval q1 P f) (eval q2 P f)) by (intros d0 s0 e0 x0 H0; apply IH; exact H0).
+    destruct x as [v|y|op a b|es|fn args|src arms]; cbn [nm] in Hx.
+    - reflexivity.
+    - reflexivity.
+    - apply andb_prop in Hx as [H1 H2]. rewrite !eval_bin, (IH d s e a H1).
+      destruct (eval q2 P f d s e a); try reflexivity. cbn [bind]. rewrite (IH d s e b H2). reflexivity.
+    - cbn [eval]. rewrite (map_res_ext (eval q1 P f d s e) (eval q2 P f d s e)); [reflexivity|].
+      intros x Hin. apply IH. eapply nm_forallb_In; eassumption.
+    - rewrite !eval_call. destruct (find_fn (pdefs P) fn) as [fd|] eqn:Ef; [|reflexivity].
+      rewrite (map_res_ext (eval q1 P f d s e) (eval q2 P f d s e)) by (intros x Hin; apply IH; eapply nm_forallb_In; eassumption).
+      destruct (map_res (eval q2 P f d s e) args); try reflexivity. cbn [bind].
+      destruct d as [|d']; [reflexivity|]. apply call_fn_ext; [exact Ha|]. eapply find_fn_free; [exact HP|exact Ef].
+    - discriminate.
+  Qed.
+End QuirkFree.
+
+(* ================================================================== known findings: witnesses
+   (each: the specified outcome and the code model's outcome differ) *)
+Definition mk_case (P : prog) (g : env) (m : expr) : case :=
+  {| c_prog := P; c_globals := g; c_main := m; c_fuel := 50 |}.
+Definition noprog : prog := {| penum := []; pdefs := [] |}.
+Definition u (z : Z) : value := VInt "u64" z.
+
+(* b := false;  b? | false => 1 | true => 2 | * => 3. *)
+Definition w_bool : case := mk_case noprog [("p", VBool false)]
+  (EMatch (EVar "p") [(PLit (VBool false), None, EVal (u 1)); (PLit (VBool true), None, EVal (u 2)); (PWild, None, EVal (u 3))]).
+(* g(a, b) | * => 1.   g(3, 4) *)
+Definition w_wild : case := mk_case
+  {| penum := []; pdefs := [{| fname := "g"; fparams := [("a", KInt "u64"); ("b", KInt "u64")]; fout := KInt "u64";
+                              farms := [(PWild, None, EVal (u 1))] |}] |} []
+  (ECall "g" [EVal (u 3); EVal (u 4)]).
+(* isz(x<u64>) => <bool> | 0 => true | * => false.   isz([0 1 2]) *)
+Definition w_bcast : case := mk_case
+  {| penum := []; pdefs := [{| fname := "isz"; fparams := [("x", KInt "u64")]; fout := KBool;
+                              farms := [(PLit (u 0), None, EVal (VBool true)); (PWild, None, EVal (VBool false))] |}] |} []
+  (ECall "isz" [EVal (VMat 1 3 [u 0; u 1; u 2])]).
+(* s := 5;  s? | (a, b), a > 1 => 1 | * => 0. *)
+Definition w_guard : case := mk_case noprog [("s", u 5)]
+  (EMatch (EVar "s") [(PTuple [PVar "a"; PVar "b"], Some (EBin Gt (EVar "a") (EVal (u 1))), EVal (u 1)); (PWild, None, EVal (u 0))]).
+(* x := 0;  x? | 0 => 1 | m => m - 1 | * => 0. *)
+Definition w_later : case := mk_case noprog [("x", u 0)]
+  (EMatch (EVar "x") [(PLit (u 0), None, EVal (u 1)); (PVar "m", None, EBin Sub (EVar "m") (EVal (u 1))); (PWild, None, EVal (u 0))]).
+(* sumto(100): 101 nested activations *)
+Definition sum_def : fdef :=
+  {| fname := "sumto"; fparams := [("x", KInt "u64")]; fout := KInt "u64";
+     farms := [(PLit (u 0), None, EVal (u 0));
+               (PVar "n", None, EBin Add (EVar "n") (ECall "sumto" [EBin Sub (EVar "n") (EVal (u 1))]))] |}.
+Definition w_deep : case :=
+  {| c_prog := {| penum := []; pdefs := [sum_def] |}; c_globals := []; c_main := ECall "sumto" [EVal (u 100)]; c_fuel := 1000 |}.
+
+Lemma refuted_bool : run spec_q 50 w_bool = ROk (u 1) /\ run impl_q 50 w_bool = ROk (u 2) /\ kf_class w_bool (ROk (u 1)) = Some "match-bool-literal".
+Proof. vm_compute. auto. Qed.
+Lemma refuted_wild : run spec_q 50 w_wild = ROk (u 1) /\ run impl_q 50 w_wild = RErr /\ kf_class w_wild (ROk (u 1)) = Some "multi-arg-wildcard".
+Proof. vm_compute. auto. Qed.
+Lemma refuted_bcast : run spec_q 50 w_bcast = ROk (VMat 1 3 [VBool true; VBool false; VBool false]) /\ run impl_q 50 w_bcast = RErr /\
+  kf_class w_bcast (run spec_q 50 w_bcast) = Some "broadcast-kind-change".
+Proof. vm_compute. auto. Qed.
+Lemma refuted_guard : run spec_q 50 w_guard = ROk (u 0) /\ run impl_q 50 w_guard = RErr /\ kf_class w_guard (ROk (u 0)) = Some "guard-before-match".
+Proof. vm_compute. auto. Qed.
+Lemma refuted_later : run spec_q 50 w_later = ROk (u 1) /\ run impl_q 50 w_later = RArith /\ kf_class w_later (ROk (u 1)) = Some "later-arm-evaluated".
+Proof. vm_compute. auto. Qed.
+Lemma refuted_deep : run spec_q 1000 w_deep = ROk (u 5050) /\ run spec_q depth_safe w_deep = RStack /\ is_deep w_deep = true.
+Proof. vm_compute. auto. Qed.
+
+(* the witnesses are in the complement of what the "holds" theorems cover *)
+Lemma w_wild_not_free : prog_free (c_prog w_wild) = false. Proof. reflexivity. Qed.
+Lemma w_bcast_not_free : prog_free (c_prog w_bcast) = false. Proof. reflexivity. Qed.
+
+(* ---- the generator's encoding of the recursive definitions decodes to the definitions the theorems are about *)
+Definition prog_of (s : string) : option prog :=
+  match parse_sx s with Some x => option_map c_prog (dec_case x) | None => None end.
+
+Lemma gen_fact : prog_of "(c16 (enum) (defs (fn fact ((x (int u64))) (int u64) (arm (l (i u64 0)) - (val (i u64 1))) (arm (v n) - (op mul (var n) (call fact (op sub (var n) (val (i u64 1)))))))) (globals) (main (call fact (val (i u64 5)))) (fuel 600))"
+  = Some {| penum := []; pdefs := [fact_def "u64"] |}.
+Proof. vm_compute. reflexivity. Qed.
+Lemma gen_power : prog_of "(c16 (enum) (defs (fn power ((x (int u64)) (y (int u64))) (int u64) (arm (t _ (l (i u64 0))) - (val (i u64 1))) (arm (t (v x) (v y)) - (op mul (var x) (call power (var x) (op sub (var y) (val (i u64 1)))))))) (globals) (main (call power (val (i u64 2)) (val (i u64 10)))) (fuel 600))"
+  = Some {| penum := []; pdefs := [power_def "u64"] |}.
+Proof. vm_compute. reflexivity. Qed.
+Lemma gen_fib : prog_of "(c16 (enum) (defs (fn fib ((x (int u64))) (int u64) (arm (l (i u64 0)) - (val (i u64 0))) (arm (l (i u64 1)) - (val (i u64 1))) (arm (v n) - (op add (call fib (op sub (var n) (val (i u64 1)))) (call fib (op sub (var n) (val (i u64 2)))))))) (globals) (main (call fib (val (i u64 10)))) (fuel 600))"
+  = Some {| penum := []; pdefs := [fib_def "u64"] |}.
+Proof. vm_compute. reflexivity. Qed.
+Lemma gen_gcd : prog_of "(c16 (enum) (defs (fn gcd ((a (int u64)) (b (int u64))) (int u64) (arm (t (v a) (l (i u64 0))) - (var a)) (arm (t (v a) (v b)) - (call gcd (var b) (op mod (var a) (var b)))))) (globals) (main (call gcd (val (i u64 12)) (val (i u64 18)))) (fuel 600))"
+  = Some {| penum := []; pdefs := [gcd_def "u64"] |}.
+Proof. vm_compute. reflexivity. Qed.
+Lemma gen_countdown : prog_of "(c16 (enum) (defs (fn countdown ((n (int u64))) (int u64) (arm (v n) - (call cdacc (var n) (val (i u64 0))))) (fn cdacc ((n (int u64)) (acc (int u64))) (int u64) (arm (t (l (i u64 0)) (v acc)) - (var acc)) (arm (t (v n) (v acc)) - (call cdacc (op sub (var n) (val (i u64 1))) (op add (var acc) (val (i u64 1))))))) (globals) (main (call countdown (val (i u64 1000)))) (fuel 1400))"
+  = Some {| penum := []; pdefs := [countdown_def "u64"; cdacc_def "u64"] |}.
+Proof. vm_compute. reflexivity. Qed.
+
+(* the judge on whole lines *)
+Lemma judge_line_ok : run_line "((c16 (enum) (defs (fn fact ((x (int u64))) (int u64) (arm (l (i u64 0)) - (val (i u64 1))) (arm (v n) - (op mul (var n) (call fact (op sub (var n) (val (i u64 1)))))))) (globals) (main (call fact (val (i u64 5)))) (fuel 600)) (s u64 120))" = "(ok value)".
+Proof. vm_compute. reflexivity. Qed.
+Lemma judge_line_bad : run_line "((c16 (enum) (defs (fn fact ((x (int u64))) (int u64) (arm (l (i u64 0)) - (val (i u64 1))) (arm (v n) - (op mul (var n) (call fact (op sub (var n) (val (i u64 1)))))))) (globals) (main (call fact (val (i u64 5)))) (fuel 600)) (s u64 121))" = "(bad wrong-result (value (i u64 120)))".
+Proof. vm_compute. reflexivity. Qed.
